@@ -11,7 +11,7 @@ TRUSTED_BASE = [
 ]
 ASSUMPTIONS = [
     'serial CPU (cython) backend, LinkedListNNPS (the default of Interpolator and SPHEvaluator)',
-    'update_particle_arrays is given arrays with the same names, in the same order, with the same properties (documented precondition)',
+    'update_particle_arrays is given arrays with the same names, in the same order, with the same properties (documented precondition); different source arrays may have different property sets',
     'after an in-place change of particles update() is called before interpolate (documented contract); histories that do not are not interpolated',
     'periodic boxes at least twice the kernel support wide',
 ]
@@ -24,11 +24,16 @@ LEVEL_TEXT = ("Lean 4 theorems over every neighbour list, every ordered field, a
               "summation_density_is_sum, neighbour_order_irrelevant, out_of_range_sources_irrelevant, source_arrays_add_up, "
               "order1_system_of_affine_field, order1_truncated_system, order1_reproduces_linear) and over every history of "
               "set_interpolation_points / update_particle_arrays / update / in-place changes (bindings_current, "
-              "neighbours_current, evaluator_bindings_current) about a hand-written model that transcribes the five "
+              "neighbours_current, evaluator_bindings_current) and, including earlier interpolate calls of other "
+              "properties and arrays that arrive with a used temp_prop, over the staging of the requested property "
+              "(missing_property_staged_as_zeros, interpolate_stages_requested_property, "
+              "interpolate_independent_of_history) about a hand-written model that transcribes the five "
               "interpolation equations as folds and the Interpolator/SPHEvaluator bindings as a state machine; the model is "
               "tied to the run-time-compiled evaluators on every run by bit-exact differential execution at Float "
-              "(values, summation densities, moment matrices, right-hand sides, solutions, binding states), and the "
-              "property's own predicate is evaluated by brute force on the real code to produce replays.")
+              "(values, summation densities, moment matrices, right-hand sides, solutions, binding states, the "
+              "temp_prop contents interpolate stages per source array given what was there before), and the "
+              "property's own predicate is evaluated by brute force on the real code, with the source values read "
+              "from the requested property itself (zeros for arrays lacking it), to produce replays.")
 LEVEL_NOTE = ("Trusted: Lean kernel, axioms propext/Classical.choice/Quot.sound; the hand-written model (checked by the "
               "correspondence: ~170 histories, several thousand destination points quick); kernel values are inputs "
               "(harness evaluates the pure-Python kernel classes; C08 covers them); exact-field arithmetic in place of IEEE "
